@@ -64,36 +64,36 @@ var isisAssumptions = []string{
 }
 
 var props = map[string]propInfo{
-	"C01": {Engine: "bgp", Quick: 4000, Thorough: 150000, BatchSize: 50},
-	"C02": {Engine: "bgp", Quick: 60000, Thorough: 2000000, BatchSize: 1000},
-	"C04": {Engine: "bgp", Quick: 40000, Thorough: 1500000, BatchSize: 500},
-	"C05": {Engine: "bgp", Quick: 5000, Thorough: 150000},
-	"C06": {Engine: "bgp", Quick: 5000, Thorough: 150000},
-	"C07": {Engine: "bgp", Quick: 3000, Thorough: 90000},
-	"C08": {Engine: "bgp", Quick: 5000, Thorough: 150000},
-	"C09": {Engine: "bgp", Quick: 5000, Thorough: 150000},
-	"C10": {Engine: "bgp", Quick: 6000, Thorough: 180000},
-	"C11": {Engine: "bgp", Quick: 4000, Thorough: 120000},
-	"C12": {Engine: "bgp", Quick: 4000, Thorough: 120000},
-	"C13": {Engine: "bgp", Quick: 5000, Thorough: 150000},
-	"C18": {Engine: "bgp", Quick: 600, Thorough: 20000, BatchSize: 10, PerRunTimeout: 120 * time.Second},
-	"C19": {Engine: "bgp", Quick: 5000, Thorough: 150000},
-	"C20": {Engine: "bgp", Quick: 5000, Thorough: 150000},
-	"C21": {Engine: "bgp", Quick: 1500, Thorough: 45000},
-	"C22": {Engine: "bgp", Quick: 1200, Thorough: 36000, BatchSize: 20},
-	"C23": {Engine: "bgp", Quick: 8000, Thorough: 240000},
-	"C24": {Engine: "bgp", Quick: 6000, Thorough: 180000},
-	"C25": {Engine: "bgp", Quick: 6000, Thorough: 180000},
-	"C26": {Engine: "bgp", Quick: 1200, Thorough: 60000, BatchSize: 10, Race: true, PerRunTimeout: 60 * time.Second, Assumptions: []string{
+	"C01": {Engine: "bgp", Quick: 4000, Thorough: 40000, BatchSize: 50},
+	"C02": {Engine: "bgp", Quick: 60000, Thorough: 600000, BatchSize: 1000},
+	"C04": {Engine: "bgp", Quick: 40000, Thorough: 400000, BatchSize: 500},
+	"C05": {Engine: "bgp", Quick: 5000, Thorough: 50000},
+	"C06": {Engine: "bgp", Quick: 5000, Thorough: 50000},
+	"C07": {Engine: "bgp", Quick: 3000, Thorough: 30000},
+	"C08": {Engine: "bgp", Quick: 5000, Thorough: 50000},
+	"C09": {Engine: "bgp", Quick: 5000, Thorough: 50000},
+	"C10": {Engine: "bgp", Quick: 6000, Thorough: 60000},
+	"C11": {Engine: "bgp", Quick: 4000, Thorough: 40000},
+	"C12": {Engine: "bgp", Quick: 4000, Thorough: 40000},
+	"C13": {Engine: "bgp", Quick: 5000, Thorough: 50000},
+	"C18": {Engine: "bgp", Quick: 600, Thorough: 6000, BatchSize: 10, PerRunTimeout: 120 * time.Second},
+	"C19": {Engine: "bgp", Quick: 5000, Thorough: 50000},
+	"C20": {Engine: "bgp", Quick: 5000, Thorough: 50000},
+	"C21": {Engine: "bgp", Quick: 1500, Thorough: 15000},
+	"C22": {Engine: "bgp", Quick: 1200, Thorough: 12000, BatchSize: 20},
+	"C23": {Engine: "bgp", Quick: 8000, Thorough: 80000},
+	"C24": {Engine: "bgp", Quick: 6000, Thorough: 60000},
+	"C25": {Engine: "bgp", Quick: 6000, Thorough: 60000},
+	"C26": {Engine: "bgp", Quick: 1200, Thorough: 12000, BatchSize: 10, Race: true, PerRunTimeout: 60 * time.Second, Assumptions: []string{
 		"race build: the Go runtime randomises goroutine wake-ups under -race, so a seed fixes the plan and the yields but not the exact interleaving (determinism and replay rates are measured, see DESIGN.md 12.5); the detector only judges accesses that were executed",
 	}},
-	"C27": {Engine: "bgp", Quick: 20000, Thorough: 600000, BatchSize: 250},
-	"C28": {Engine: "bgp", Quick: 20000, Thorough: 600000, BatchSize: 250},
-	"C29": {Engine: "bgp", Quick: 40000, Thorough: 1200000, BatchSize: 500},
-	"C31": {Engine: "bgp", Quick: 12000, Thorough: 400000, BatchSize: 150, Assumptions: isisAssumptions},
-	"C32": {Engine: "bgp", Quick: 8000, Thorough: 250000, BatchSize: 100, Assumptions: isisAssumptions},
-	"C33": {Engine: "bgp", Quick: 12000, Thorough: 400000, BatchSize: 150, Assumptions: isisAssumptions},
-	"C36": {Engine: "cfg", Quick: 3000, Thorough: 90000, BatchSize: 50, Assumptions: []string{
+	"C27": {Engine: "bgp", Quick: 20000, Thorough: 200000, BatchSize: 250},
+	"C28": {Engine: "bgp", Quick: 20000, Thorough: 200000, BatchSize: 250},
+	"C29": {Engine: "bgp", Quick: 40000, Thorough: 400000, BatchSize: 500},
+	"C31": {Engine: "bgp", Quick: 12000, Thorough: 120000, BatchSize: 150, Assumptions: isisAssumptions},
+	"C32": {Engine: "bgp", Quick: 8000, Thorough: 80000, BatchSize: 100, Assumptions: isisAssumptions},
+	"C33": {Engine: "bgp", Quick: 12000, Thorough: 120000, BatchSize: 150, Assumptions: isisAssumptions},
+	"C36": {Engine: "cfg", Quick: 3000, Thorough: 30000, BatchSize: 50, Assumptions: []string{
 		"policies are compared through their effect on the routes the scripted neighbours announce (three prefixes each), not structurally",
 		"every neighbour keeps its AS number across configurations; routing instances (VRFs) other than the default one are not generated",
 	}},
@@ -157,11 +157,16 @@ func repoDir() string {
 // componentsOf lists which bio-rd code a property's simulation runs for real and what is stubbed.
 func componentsOf(prop string, real bool) []string {
 	switch prop {
-	case "C01", "C02", "C04", "C29":
+	case "C29":
+		if real {
+			return []string{"routingtable/mergedlocrib", "risclient (RISClient receive loop: serviceLoop, processUpdate, processDownEvent - in half of the plans)", "routingtable/locRIB", "route", "net"}
+		}
+		return []string{"gRPC ObserveRIB stream (simulated: a channel of RIBUpdate ending with EOF or a transport error)", "RISClient connection management / re-dialling (one goroutine per source serves one simulated stream after the other)", "in the other half of the plans the sources call the Client interface (AddRoute / RemoveRoute / DropAllBySrc) directly"}
+	case "C01", "C02", "C04":
 		if real {
 			return []string{"routingtable (RoutingTable, ClientManager)", "routingtable/locRIB", "routingtable/adjRIBOut", "routingtable/mergedlocrib", "route", "net"}
 		}
-		return []string{"callers of the table API (harness tasks)", "recording clients", "risclient gRPC stream (direct calls on its Client interface)"}
+		return []string{"callers of the table API (harness tasks)", "recording clients"}
 	case "C27", "C28":
 		if real {
 			return []string{"protocols/bgp/server (BMP Router.serve, neighbor manager, pseudo FSMs)", "protocols/bmp/packet", "protocols/bgp/packet", "routingtable/**", "route", "net"}
